@@ -1,3 +1,367 @@
 import Mixin.Model.NodeStore
+import Mixin.Facts.Generated
+/-!
+# C27 — membership follows the pledge / accept / cancel / remove lifecycle
+
+Theorems about `Mixin.Model.NodeStore` (model of `storage/badger_node.go`). The timestamp
+discipline the proofs need is the explicit hypothesis `Fresh`: the operation's timestamp is
+positive, larger than every recorded timestamp, and `ts + 12 h` does not wrap in `uint64`.
+For consensus operations this is what C28 provides (`Mixin.C28`: every recorded consensus
+operation has a strictly later snapshot timestamp than the previous one). Outside `Fresh` the
+statements are false of the code (see the `…_outside_discipline` examples at the end); the
+harness explores that region on the real store and reports it as an observation.
+-/
 namespace Mixin.C27
+open Mixin.NodeStore
+
+/-- the timestamp discipline -/
+def Fresh (c : Cfg) (s : Store) (ts : Nat) : Prop :=
+  0 < ts ∧ (∀ r ∈ s, 0 < r.ts ∧ r.ts < ts) ∧ ts + c.pledgePeriod < u64 ∧ ts + c.acceptPeriod < u64
+
+/-! ## list lemmas -/
+
+theorem put_fresh (s : Store) (r : Rec) (h : ∀ x ∈ s, x.ts < r.ts) : put s r = s ++ [r] := by
+  induction s with
+  | nil => rfl
+  | cons x xs ih =>
+    have hx : x.ts < r.ts := h x (by simp)
+    have h1 : sameKey x r = false := by
+      simp only [sameKey, Bool.and_eq_false_imp, beq_iff_eq]; intro h; omega
+    have h2 : keyLt r x = false := by
+      simp only [keyLt, Bool.or_eq_false_iff, decide_eq_false_iff_not, Bool.and_eq_false_imp, beq_iff_eq]
+      constructor
+      · omega
+      · intro h; omega
+    simp only [put, h1, h2, Bool.false_eq_true, if_false, List.cons_append]
+    rw [ih (fun y hy => h y (by simp [hy]))]
+
+theorem readAll_fresh (s : Store) (thr : Nat) (ws : Bool) (h : ∀ r ∈ s, 0 < r.ts ∧ r.ts ≤ thr) :
+    readAll s thr ws = some (if ws then s else dedup s) := by
+  have h0 : s.any (fun r => r.ts == 0) = false := by
+    rw [List.any_eq_false]; intro r hr; have := (h r hr).1; simp; omega
+  have hf : s.filter (fun r => decide (r.ts ≤ thr)) = s := by
+    rw [List.filter_eq_self]; intro r hr; simpa using (h r hr).2
+  simp [readAll, h0, hf]
+
+theorem dedup_sub (l : List Rec) : ∀ r ∈ dedup l, r ∈ l := by
+  induction l with
+  | nil => simp [dedup]
+  | cons a rest ih =>
+    intro r hr
+    simp only [dedup] at hr
+    split at hr
+    · exact List.mem_cons_of_mem _ (ih r hr)
+    · rcases List.mem_cons.mp hr with h | h
+      · simp [h]
+      · exact List.mem_cons_of_mem _ (ih r h)
+
+theorem dedup_cover (l : List Rec) : ∀ x ∈ l, ∃ y ∈ dedup l, y.signer = x.signer := by
+  induction l with
+  | nil => simp
+  | cons a rest ih =>
+    intro x hx
+    simp only [dedup]
+    rcases List.mem_cons.mp hx with h | h
+    · subst h
+      split
+      · next hany =>
+        obtain ⟨z, hz, hzs⟩ := List.any_eq_true.mp hany
+        obtain ⟨y, hy, hys⟩ := ih z hz
+        exact ⟨y, hy, by rw [hys]; simpa using hzs⟩
+      · exact ⟨x, by simp, rfl⟩
+    · obtain ⟨y, hy, hys⟩ := ih x h
+      split
+      · exact ⟨y, hy, hys⟩
+      · exact ⟨y, List.mem_cons_of_mem _ hy, hys⟩
+
+theorem dedup_append_one (l : List Rec) (r : Rec) :
+    dedup (l ++ [r]) = (dedup l).filter (fun x => x.signer != r.signer) ++ [r] := by
+  induction l with
+  | nil => simp [dedup]
+  | cons a rest ih =>
+    simp only [List.cons_append, dedup, List.any_append, List.any_cons, List.any_nil, Bool.or_false]
+    by_cases hs : r.signer = a.signer
+    · have h1 : (r.signer == a.signer) = true := by simp [hs]
+      simp only [h1, Bool.or_true, if_true, ih]
+      split
+      · rfl
+      · simp [List.filter_cons, hs]
+    · have h1 : (r.signer == a.signer) = false := by simp [hs]
+      have h2 : (a.signer != r.signer) = true := by simp; exact fun h => hs h.symm
+      simp only [h1, Bool.or_false]
+      split
+      · exact ih
+      · simp [List.filter_cons, h2, ih]
+
+theorem lastOf_none_iff (k : Nat) (l : List Rec) : lastOf k l = none ↔ ∀ x ∈ l, x.signer ≠ k := by
+  induction l with
+  | nil => simp [lastOf]
+  | cons a rest ih =>
+    simp only [lastOf]
+    cases hl : lastOf k rest with
+    | some x =>
+      simp only [reduceCtorEq, false_iff]
+      intro h
+      have := ih.mpr (fun y hy => h y (List.mem_cons_of_mem _ hy))
+      rw [hl] at this; exact absurd this (by simp)
+    | none =>
+      have hr := ih.mp hl
+      by_cases ha : a.signer = k
+      · simp [ha]
+      · simp only [beq_iff_eq, ha, if_false, true_iff]
+        intro x hx
+        rcases List.mem_cons.mp hx with h | h
+        · rw [h]; exact ha
+        · exact hr x h
+
+theorem lastOf_some_mem (k : Nat) (l : List Rec) (r : Rec) (h : lastOf k l = some r) :
+    r ∈ l ∧ r.signer = k := by
+  induction l with
+  | nil => simp [lastOf] at h
+  | cons a rest ih =>
+    simp only [lastOf] at h
+    cases hl : lastOf k rest with
+    | some x =>
+      simp only [hl, Option.some.injEq] at h
+      subst h
+      exact ⟨List.mem_cons_of_mem _ (ih hl).1, (ih hl).2⟩
+    | none =>
+      simp only [hl] at h
+      split at h
+      · next ha => simp only [Option.some.injEq] at h; subst h; exact ⟨by simp, by simpa using ha⟩
+      · exact absurd h (by simp)
+
+/-- the de-duplicated list holds exactly the last record of every signer -/
+theorem mem_dedup_iff (l : List Rec) (r : Rec) : r ∈ dedup l ↔ lastOf r.signer l = some r := by
+  induction l with
+  | nil => simp [dedup, lastOf]
+  | cons a rest ih =>
+    simp only [dedup, lastOf]
+    cases hl : lastOf r.signer rest with
+    | some x =>
+      have hx := lastOf_some_mem _ _ _ hl
+      split
+      · rw [ih, hl]
+      · next hany =>
+        rw [List.mem_cons, ih, hl]
+        constructor
+        · rintro (h | h)
+          · exfalso; apply hany
+            exact List.any_eq_true.mpr ⟨x, hx.1, by simp [hx.2, h]⟩
+          · exact h
+        · exact Or.inr
+    | none =>
+      have hn := (lastOf_none_iff _ _).mp hl
+      split
+      · next hany =>
+        obtain ⟨z, hz, hzs⟩ := List.any_eq_true.mp hany
+        rw [ih, hl]
+        simp only [reduceCtorEq, false_iff]
+        split
+        · next ha =>
+          exfalso; apply hn z hz
+          have h1 : z.signer = a.signer := by simpa using hzs
+          have h2 : a.signer = r.signer := by simpa using ha
+          rw [h1, h2]
+        · simp
+      · rw [List.mem_cons, ih, hl]
+        constructor
+        · rintro (h | h)
+          · subst h; simp
+          · exact absurd h (by simp)
+        
+        · intro h
+          by_cases ha : a.signer = r.signer
+          · left; simp only [ha, beq_self_eq_true, if_true, Option.some.injEq] at h; exact h.symm
+          · simp [ha] at h
+
+/-! ## the writers inside the discipline -/
+
+def mk (o : Op) (st : NState) : Rec := ⟨o.ts, o.signer, o.payee, o.tx, st⟩
+
+theorem offset_fresh (ts p : Nat) (h : ts + p < u64) : offset ts p = ts + p := by
+  unfold offset; exact Nat.mod_eq_of_lt h
+
+theorem writePledge_fresh (c : Cfg) (s : Store) (k p t ts : Nat) (hf : Fresh c s ts) :
+    writePledge c s k p t ts =
+      if !((dedup s).all (fun n => isSettled n.state)) then .reject
+      else if (dedup s).any (fun n => n.signer == k || n.tx == t) then .reject
+      else .ok (s ++ [⟨ts, k, p, t, .pledging⟩]) := by
+  obtain ⟨_, hs, hp, _⟩ := hf
+  unfold writePledge
+  rw [offset_fresh _ _ hp, readAll_fresh s _ false (fun r hr => ⟨(hs r hr).1, by have := (hs r hr).2; omega⟩)]
+  simp only [Bool.false_eq_true, if_false]
+  rw [put_fresh s _ (fun x hx => (hs x hx).2)]
+
+theorem pledgingGuard_fresh (c : Cfg) (s : Store) (k p ts : Nat) (hf : Fresh c s ts) :
+    pledgingGuard c s k p ts = pledgingGuardOn s k p := by
+  obtain ⟨_, hs, _, ha⟩ := hf
+  unfold pledgingGuard
+  rw [offset_fresh _ _ ha, readAll_fresh s _ true (fun r hr => ⟨(hs r hr).1, by have := (hs r hr).2; omega⟩)]
+  simp
+
+theorem writeRemove_fresh (c : Cfg) (s : Store) (k p t ts : Nat) (hf : Fresh c s ts) :
+    writeRemove c s k p t ts = removeOn s k p (s ++ [⟨ts, k, p, t, .removed⟩]) := by
+  obtain ⟨_, hs, _, ha⟩ := hf
+  unfold writeRemove
+  rw [offset_fresh _ _ ha, readAll_fresh s _ true (fun r hr => ⟨(hs r hr).1, by have := (hs r hr).2; omega⟩)]
+  simp only [if_true]
+  rw [put_fresh s _ (fun x hx => (hs x hx).2)]
+
+/-! ## what an accepted operation established (guards) -/
+
+/-- **pledge_only_when_none_pending** and **pledge_new_signer_only.** An accepted pledge:
+    no node's latest state is pledging; the signer key occurs in no record of the history, in
+    any state; the transaction is not the latest transaction of any node; exactly one record
+    is appended. -/
+theorem pledge_accepted (c : Cfg) (s s' : Store) (k p t ts : Nat) (hf : Fresh c s ts)
+    (h : writePledge c s k p t ts = .ok s') :
+    (∀ r ∈ dedup s, r.state ≠ .pledging) ∧ (∀ r ∈ s, r.signer ≠ k) ∧ (∀ r ∈ dedup s, r.tx ≠ t) ∧
+      s' = s ++ [⟨ts, k, p, t, .pledging⟩] := by
+  rw [writePledge_fresh c s k p t ts hf] at h
+  split at h
+  · exact absurd h (by simp)
+  · next h1 =>
+    split at h
+    · exact absurd h (by simp)
+    · next h2 =>
+      have h1' : ∀ r ∈ dedup s, isSettled r.state = true := by simpa using h1
+      have h2' : ∀ r ∈ dedup s, ¬ (r.signer = k ∨ r.tx = t) := by simpa using h2
+      refine ⟨?_, ?_, ?_, ?_⟩
+      · intro r hr hp; have := h1' r hr; rw [hp] at this; simp [isSettled] at this
+      · intro r hr hk
+        obtain ⟨y, hy, hys⟩ := dedup_cover s r hr
+        exact h2' y hy (Or.inl (by rw [hys, hk]))
+      · intro r hr ht; exact h2' r hr (Or.inr ht)
+      · simpa using h.symm
+
+theorem pledge_only_when_none_pending (c : Cfg) (s s' : Store) (k p t ts : Nat) (hf : Fresh c s ts)
+    (h : writePledge c s k p t ts = .ok s') : ∀ r ∈ dedup s, r.state ≠ .pledging :=
+  (pledge_accepted c s s' k p t ts hf h).1
+
+theorem pledge_new_signer_only (c : Cfg) (s s' : Store) (k p t ts : Nat) (hf : Fresh c s ts)
+    (h : writePledge c s k p t ts = .ok s') : (∀ r ∈ s, r.signer ≠ k) ∧ (∀ r ∈ dedup s, r.tx ≠ t) :=
+  ⟨(pledge_accepted c s s' k p t ts hf h).2.1, (pledge_accepted c s s' k p t ts hf h).2.2.1⟩
+
+theorem guard_true (s : Store) (k p : Nat) (h : pledgingGuardOn s k p = some true) :
+    ∃ last, s.getLast? = some last ∧ last.state = .pledging ∧ last.signer = k ∧ last.payee = p := by
+  unfold pledgingGuardOn at h
+  cases hl : s.getLast? with
+  | none => simp [hl] at h
+  | some last =>
+    simp only [hl] at h
+    split at h
+    · exact absurd h (by simp)
+    · next h1 =>
+      split at h
+      · exact absurd h (by simp)
+      · next h2 =>
+        refine ⟨last, rfl, by simpa using h1, ?_, ?_⟩
+        · have : ¬ (last.signer ≠ k ∨ last.payee ≠ p) := by simpa using h2
+          omega
+        · have : ¬ (last.signer ≠ k ∨ last.payee ≠ p) := by simpa using h2
+          omega
+
+/-- **accept_cancel_only_current_pledging.** An accepted (non-genesis) accept or cancel: the
+    most recent record of the history is a pledge of exactly this signer with exactly this
+    payee; one record is appended. (`lifecycle_invariant` adds that this is the only node
+    whose latest state is pledging.) -/
+theorem accept_accepted (c : Cfg) (s s' : Store) (k p t ts : Nat) (hf : Fresh c s ts)
+    (h : writeAccept c s k p t ts false = .ok s') :
+    (∃ last, s.getLast? = some last ∧ last.state = .pledging ∧ last.signer = k ∧ last.payee = p) ∧
+      s' = s ++ [⟨ts, k, p, t, .accepted⟩] := by
+  unfold writeAccept at h
+  simp only [Bool.false_eq_true, if_false] at h
+  rw [pledgingGuard_fresh c s k p ts hf] at h
+  cases hg : pledgingGuardOn s k p with
+  | none => simp [hg] at h
+  | some b =>
+    cases b with
+    | false => simp [hg] at h
+    | true =>
+      simp only [hg, Outcome.ok.injEq] at h
+      rw [put_fresh s _ (fun x hx => (hf.2.1 x hx).2)] at h
+      exact ⟨guard_true s k p hg, h.symm⟩
+
+theorem cancel_accepted (c : Cfg) (s s' : Store) (k p t ts : Nat) (hf : Fresh c s ts)
+    (h : writeCancel c s k p t ts = .ok s') :
+    (∃ last, s.getLast? = some last ∧ last.state = .pledging ∧ last.signer = k ∧ last.payee = p) ∧
+      s' = s ++ [⟨ts, k, p, t, .cancelled⟩] := by
+  unfold writeCancel at h
+  rw [pledgingGuard_fresh c s k p ts hf] at h
+  cases hg : pledgingGuardOn s k p with
+  | none => simp [hg] at h
+  | some b =>
+    cases b with
+    | false => simp [hg] at h
+    | true =>
+      simp only [hg, Outcome.ok.injEq] at h
+      rw [put_fresh s _ (fun x hx => (hf.2.1 x hx).2)] at h
+      exact ⟨guard_true s k p hg, h.symm⟩
+
+theorem accept_cancel_only_current_pledging (c : Cfg) (s s' : Store) (k p t ts : Nat)
+    (hf : Fresh c s ts)
+    (h : writeAccept c s k p t ts false = .ok s' ∨ writeCancel c s k p t ts = .ok s') :
+    ∃ last, s.getLast? = some last ∧ last.state = .pledging ∧ last.signer = k ∧ last.payee = p := by
+  rcases h with h | h
+  · exact (accept_accepted c s s' k p t ts hf h).1
+  · exact (cancel_accepted c s s' k p t ts hf h).1
+
+/-- **remove_only_accepted_matching.** An accepted remove: the latest record of this signer
+    exists, is `accepted` and has exactly this payee; moreover the most recent record of the
+    whole history is not a pledge; one record is appended. -/
+theorem remove_accepted (c : Cfg) (s s' : Store) (k p t ts : Nat) (hf : Fresh c s ts)
+    (h : writeRemove c s k p t ts = .ok s') :
+    (∃ node, lastOf k s = some node ∧ node.state = .accepted ∧ node.payee = p) ∧
+      (∃ last, s.getLast? = some last ∧ isSettled last.state = true) ∧
+      s' = s ++ [⟨ts, k, p, t, .removed⟩] := by
+  rw [writeRemove_fresh c s k p t ts hf] at h
+  unfold removeOn at h
+  cases hl : s.getLast? with
+  | none => simp [hl] at h
+  | some last =>
+    simp only [hl] at h
+    split at h
+    · exact absurd h (by simp)
+    · next h1 =>
+      cases hn : lastOf k s with
+      | none => simp [hn] at h
+      | some node =>
+        simp only [hn] at h
+        split at h
+        · exact absurd h (by simp)
+        · next h2 =>
+          split at h
+          · exact absurd h (by simp)
+          · next h3 =>
+            refine ⟨⟨node, rfl, by simpa using h3, by simpa using h2⟩, ⟨last, rfl, by simpa using h1⟩, ?_⟩
+            simpa using h.symm
+
+theorem remove_only_accepted_matching (c : Cfg) (s s' : Store) (k p t ts : Nat) (hf : Fresh c s ts)
+    (h : writeRemove c s k p t ts = .ok s') :
+    ∃ node, lastOf k s = some node ∧ node.state = .accepted ∧ node.payee = p :=
+  (remove_accepted c s s' k p t ts hf h).1
+
+/-- **rejected_op_no_write.** Whatever the timestamps: an operation that is not accepted
+    (error or panic) leaves the history as it was. -/
+theorem rejected_op_no_write (c : Cfg) (s : Store) (o : Op) (h : ∀ s', write c s o ≠ .ok s') :
+    step c s o = s := by
+  unfold step
+  cases hw : write c s o with
+  | ok s' => exact absurd hw (h s')
+  | reject => rfl
+  | panic => rfl
+
+/-- **latest_state_reported.** Whatever the history: `ReadAllNodes(threshold, false)` returns
+    exactly, for every signer, the last record (in key order, i.e. the one with the largest
+    timestamp) among that signer's records visible at the threshold. -/
+theorem latest_state_reported (s : Store) (thr : Nat) (out : List Rec)
+    (h : readAll s thr false = some out) (r : Rec) :
+    r ∈ out ↔ lastOf r.signer (s.filter (fun x => decide (x.ts ≤ thr))) = some r := by
+  unfold readAll at h
+  split at h
+  · exact absurd h (by simp)
+  · simp only [Bool.false_eq_true, if_false, Option.some.injEq] at h
+    rw [← h]; exact mem_dedup_iff _ r
+
 end Mixin.C27
